@@ -50,6 +50,16 @@ var c13Corpus = []string{
 	"for { }",
 	"if { a := 1 }",
 	"a := [1, {2:3}, if]",
+	"a := \"one\\\\two\\\\three\\n\"\nb := 'single \"quoted\" string'",
+	"c := \"tab\\there\" + \"quote \\\" inside\"\nd := \"uni\\u00e4code\"",
+	"e := 'x\\ny' + \"{{1 + 2}}\\t{{e}}\"\nf := r\"raw \\n {{x}}\"",
+	"foo(x)[y]\nbar := baz\n[1, 2]",
+	"x := a.b.c(1, 2)[3].d\ny := [x\n, 2]",
+}
+
+func init() {
+	c13Corpus = append(c13Corpus, c07Corpus...)
+	c13Corpus = append(c13Corpus, c08Corpus...)
 }
 
 func parseResult(text string, erp *interpreter.ECALRuntimeProvider) string {
